@@ -7,6 +7,7 @@ From SV Require Import Common.GoInt C13.Base C13.Index C13.Str C13.Seq C13.Spec.
 From SV Require Import C13.ProofsIndex C13.ProofsSlice C13.ProofsSeq C13.ProofsStr C13.ProofsStr2 C13.ProofsStr3 C13.ProofsRange C13.ProofsSort.
 From SV Require C13.History.
 From SV Require Import C13.FormatBase C13.Format C13.FormatSpec C13.ProofsFormat2.
+From SV Require Import C13.Interp C13.InterpSpec C13.ProofsInterp.
 Import ListNotations.
 Open Scope Z_scope.
 
@@ -306,4 +307,63 @@ Example format_premises_hold :
   numbers_fit [123; 48; 48; 125]%N = true /\
   string_format V fst snd [123; 48; 48; 125]%N [a] [] = FOk [97]%N /\
   numbers_fit wrap_witness = false.
+Proof. vm_compute. repeat split. Qed.
+
+(* ------------------------------------------------------------------------
+   format % args  (a string left operand).  interpolate (Interp.v) is the
+   scanning loop of interpolate in starlark/eval.go over byte lists
+   (IndexByte('%'), "%%", the "%(key)" branch with its Mapping lookup, the
+   positional branch with index / nargs, the switch on the conversion letter,
+   the surplus-operand test; slices and index expressions bounds-checked,
+   explicit fuel); interpolate_spec (InterpSpec.v) parses the template into
+   items (ILit | IPercent | IConv key letter | IBadKey) and evaluates them left
+   to right against the operand.  Values are abstract: what a conversion
+   letter prints for a value (str_of, repr_of, conv_text for d i o x X e f g
+   E F G c, None = the letter rejects the value) is a parameter (C15 / C19).
+   For ALL templates and ALL operands (a tuple of any length, a mapping with
+   any entries, any other value): the same bytes, failure on exactly the same
+   inputs with the same error class (FormatBase.ierr), no panic, fuel
+   sufficient.  No guard is needed: this is the full statement. *)
+Theorem interpolate_correct :
+  forall (V : Type) (str_of repr_of : V -> fbytes) (conv_text : N -> V -> option fbytes)
+         (template : fbytes) (x : operand V),
+    interpolate V str_of repr_of conv_text template x =
+    interpolate_spec V str_of repr_of conv_text template (operand_spec x).
+Proof. exact interpolate_correct_lemma. Qed.
+
+Theorem interpolate_never_panics :
+  forall (V : Type) (str_of repr_of : V -> fbytes) (conv_text : N -> V -> option fbytes)
+         (template : fbytes) (x : operand V),
+    interpolate V str_of repr_of conv_text template x <> IPanic /\
+    interpolate V str_of repr_of conv_text template x <> IOutOfFuel.
+Proof. exact interpolate_no_panic_lemma. Qed.
+
+(* Non-vacuity: a value is (str text, repr text, decimal text if it is a number).
+   "%s=%r %d%%" % ("x", "x", 7) = "x=\"x\" 7%";  "%(k)s" % {"k": "x"} = "x";
+   too few / too many operands, "%(k" unclosed, %(k)s of a non-mapping, %d of a
+   string, unknown letter, template ending in '%'. *)
+Example interpolate_premises_hold :
+  let V := (fbytes * fbytes * option fbytes)%type in
+  let so : V -> fbytes := fun v => fst (fst v) in
+  let ro : V -> fbytes := fun v => snd (fst v) in
+  let ct : N -> V -> option fbytes := fun c v => if N.eqb c 100 then snd v else None in
+  let xs : V := ([120]%N, [34; 120; 34]%N, None) in
+  let seven : V := ([55]%N, [55]%N, Some [55]%N) in
+  let d : V := ([123; 125]%N, [123; 125]%N, None) in
+  interpolate V so ro ct [37; 115; 61; 37; 114; 32; 37; 100; 37; 37]%N (OTuple [xs; xs; seven])
+    = IOk [120; 61; 34; 120; 34; 32; 55; 37]%N /\
+  interpolate_spec V so ro ct [37; 115; 61; 37; 114; 32; 37; 100; 37; 37]%N (STuple [xs; xs; seven])
+    = IOk [120; 61; 34; 120; 34; 32; 55; 37]%N /\
+  iparse [37; 115; 61; 37; 114; 32; 37; 40; 107; 41; 100; 37; 37]%N
+    = [IConv None (Some 115%N); ILit [61]%N; IConv None (Some 114%N); ILit [32]%N;
+       IConv (Some [107]%N) (Some 100%N); IPercent] /\
+  interpolate V so ro ct [37; 40; 107; 41; 115]%N (OMapping d [([107]%N, xs)]) = IOk [120]%N /\
+  interpolate V so ro ct [37; 40; 107; 41; 115]%N (OMapping d []) = IErr IKeyNotFound /\
+  interpolate V so ro ct [37; 40; 107; 41; 115]%N (OSingle xs) = IErr INotMapping /\
+  interpolate V so ro ct [37; 40; 107]%N (OMapping d []) = IErr IIncompleteKey /\
+  interpolate V so ro ct [37; 115; 37; 115]%N (OTuple [xs]) = IErr INotEnough /\
+  interpolate V so ro ct [37; 115]%N (OTuple [xs; xs]) = IErr ITooMany /\
+  interpolate V so ro ct [37; 100]%N (OSingle xs) = IErr IBadOperand /\
+  interpolate V so ro ct [37; 122]%N (OSingle xs) = IErr IUnknownConv /\
+  interpolate V so ro ct [37]%N (OSingle xs) = IErr IIncomplete.
 Proof. vm_compute. repeat split. Qed.
